@@ -674,6 +674,14 @@ def gen_C04(g, tier):
                 lines.append(f"{c} usize {sl}")
                 lines.append(f"{c} u8 {sl}")
                 lines.append(f"{c} usizev own {sl}")
+                if n >= 1:
+                    # owned sequences that were shrunk in place: the integer is taken from the live symbols only
+                    junk = g.text(c, r.randrange(1, 4))
+                    lines.append(f"{c} usizev trunc {n} p str {hx(t + junk)}")
+                    lines.append(f"{c} usizev remove rf {n} 0 p str {hx(t + junk)}")
+                    lines.append(f"{c} usizev fromraw {n} p str {hx(t + junk)}")
+                    lines.append(f"{c} usizev push 0 trunc {max(n - 1, 0)} p str {hx(t + junk)}")
+                    lines.append(f"{c} usize trunc {n} p str {hx(t + junk)}")
         # k-mer <-> integer, display of integers below 2^(K*w)
         for K in fitting_ks(w, 64, tier, r):
             top = 1 << (K * w)
